@@ -231,9 +231,11 @@ def check_mask(case):
     viols = []
     trans = 0
 
+    amps = np.array([1.0, 0.6, 1.4, 0.8])      # one array object for all calls of this case, as a user would reuse it
+
     def f(sig, c=1.0):
         return np.asarray(mask_sift(sig.copy(), mask_amp_mode=mode, mask_freqs=freqs, nphases=nph, max_imfs=4,
-                                    sift_thresh=1e-8 * abs(c)))
+                                    mask_amp=amps if case[3] % 2 else 1, sift_thresh=1e-8 * abs(c)))
     base, bs, bt = run_guarded(lambda: f(x))
     trans += 1
     if isinstance(base, Exception):
